@@ -48,6 +48,7 @@ type EntryResult struct {
 	QueryP99ms   float64           `json:"query_p99_ms"`
 	QueryMaxms   float64           `json:"query_max_ms"`
 	UncaughtPanics []string        `json:"uncaught_panics"`
+	PinnedOK     int               `json:"pinned_ok"`
 }
 
 type Sample struct {
@@ -136,6 +137,7 @@ func main() {
 	pin := flag.String("pin", "", "concrete run: JSON file name->[values] pinning every nondet (translator validation)")
 	clockFiles := flag.String("clockfiles", "", "comma separated source files (relative to -mod) in which time.Now()/time.Since( are redirected to the harness clock zzverif.Now()/zzverif.Since( (mechanical copy, used by the symbolic AND the native build)")
 	hookFiles := flag.String("hookfiles", "", "comma separated file:ReceiverType (relative to -mod): every method of the receiver gets a prologue that calls zzverif.Hooks[\"Type.Method\"] when the harness registered one (mechanical copy, used by both builds)")
+	witnessN := flag.Int("witness", 0, "replay up to N passing paths natively (translator validation)")
 	exact := flag.Bool("exactfmt", false, "render %d of symbolic integers exactly (digit variables) instead of opaquely")
 	summ := flag.String("summary", "", "comma separated summaries to enable (vaaid = (*VAAID).Bytes as an injective encoding of its fields)")
 	flag.Parse()
@@ -402,7 +404,33 @@ func main() {
 				exit = max(exit, 1)
 			}
 		}
-		fmt.Printf("   functions executed: %d, models used: %d\n", len(e.funcsSeen), len(e.modelsUsed))
+		// translator validation: replay up to -witness passing paths natively
+		wdone := 0
+		for _, st := range e.done {
+			if wdone >= *witnessN || len(e.violations) > 0 {
+				break
+			}
+			if st.status != Finished || len(st.reached) == 0 {
+				continue
+			}
+			if r := solver.Check(st.pc); r != Sat {
+				continue
+			}
+			model := solver.Values(TS.vars)
+			solver.Pop()
+			dir := filepath.Join(*workDir, fmt.Sprintf("witness-%s-%d", en, wdone))
+			ok, tail := witness(st, model, dir, *repoMod, *pkgPat, root.Pkg.Name(), en, native)
+			wdone++
+			if ok {
+				res.PinnedOK++
+			} else {
+				fmt.Printf("   WITNESS mismatch (a passing symbolic path fails natively): %s\n%s\n", dir, tail)
+				e.unsupported["translator-mismatch: a passing symbolic path did not pass natively ("+dir+")"]++
+				res.Unsupported = e.unsupported
+				exit = max(exit, 2)
+			}
+		}
+		fmt.Printf("   functions executed: %d, models used: %d, witnesses replayed natively: %d\n", len(e.funcsSeen), len(e.modelsUsed), res.PinnedOK)
 		solver.Close()
 		if e.second != nil {
 			e.second.Close()
